@@ -398,3 +398,430 @@ Proof.
     rewrite HDval. replace (mag <? 2 ^ bits) with true by (symmetry; apply N.ltb_lt; exact Hmag).
     rewrite existsb_us_plain by exact Hplain. reflexivity.
 Qed.
+
+Definition is_signed (k : kind) : bool := match kind_class k with CInt => true | _ => false end.
+
+Lemma kind_bits_range k : 1 <= kind_bits k /\ kind_bits k <= 64.
+Proof. destruct k; cbn; lia. Qed.
+
+Lemma pow_bits_split bits : 1 <= bits -> 2 ^ bits = 2 * 2 ^ (bits - 1).
+Proof. intro H. rewrite <- N.pow_succ_r'. f_equal. lia. Qed.
+
+Lemma pad_left_nop c width s : (N.to_nat width <= length s)%nat -> pad_left c width s = s.
+Proof. intro H. unfold pad_left. replace (N.to_nat width - length s)%nat with 0%nat by lia. reflexivity. Qed.
+
+Lemma digit_zero_ok base : 1 <= base -> is_digit_of base ch_0 = true.
+Proof. intro H. unfold is_digit_of. change (digit_val ch_0) with (Some 0). apply N.ltb_lt. lia. Qed.
+
+(* zero padded digits of [mag] *)
+Lemma padded_digits m base zero prec mag :
+  mb_ok m base zero = true -> (zero = false -> prec = 0) ->
+  let D := pad_left ch_0 prec (to_digits base mag) in
+  Forall (fun c => is_digit_of base c = true) D /\ D <> [] /\
+  of_digits_from base 0 D = Some mag /\ (m = MDec -> D = to_digits 10 mag).
+Proof.
+  intros Hmb Hz D. pose proof (base_ge2 _ _ _ Hmb) as Hb2. pose proof (base_le16 _ _ _ Hmb) as Hb16.
+  subst D. unfold pad_left. repeat split.
+  - apply Forall_app. split.
+    + apply Forall_forall. intros c Hc. apply repeat_spec in Hc. subst c. apply digit_zero_ok. lia.
+    + apply to_digits_chars; lia.
+  - intro E. apply app_eq_nil in E as [_ E]. exact (to_digits_nonempty _ _ E).
+  - rewrite of_digits_from_zeros by lia. apply of_digits_to_digits; lia.
+  - intro Em. destruct (base_cases _ _ _ Hmb) as [(_ & -> & Ez)|[(E & _)|[(E & _)|(E & _)]]]; try congruence.
+    rewrite (Hz Ez). reflexivity.
+Qed.
+
+Lemma plain_not_sign c : plain_char c -> (c =? ch_minus) = false /\ (c =? ch_plus) = false.
+Proof. unfold plain_char, ch_minus, ch_plus. intro H. split; apply N.eqb_neq; lia. Qed.
+
+Lemma int_text_shape signed bits x base zero width :
+  (zero = true \/ width = 0) ->
+  let neg := signed && (2 ^ (bits - 1) <=? x) in
+  let mag := if neg then (2 ^ bits - x) mod 2 ^ 64 else x in
+  let prec := if zero then (if neg then width - 1 else width) else 0 in
+  go_int_text signed bits x base zero width =
+  (if neg then [ch_minus] else []) ++ pad_left ch_0 prec (to_digits base mag).
+Proof.
+  intros Hzw neg mag prec. unfold go_int_text. fold neg. fold mag. fold prec.
+  apply pad_left_nop. rewrite app_length. unfold pad_left at 1. rewrite app_length, repeat_length.
+  destruct Hzw as [-> | ->]; [|lia].
+  subst prec. destruct neg; cbn [length]; lia.
+Qed.
+
+Lemma run_ok_int_text neg D : Forall plain_char D -> D <> [] -> run_ok ((if neg : bool then [ch_minus] else []) ++ D).
+Proof.
+  intros HD Hne. split.
+  - destruct neg; [discriminate|exact Hne].
+  - rewrite forallb_app. apply andb_true_iff. split.
+    + destruct neg; reflexivity.
+    + apply Forall_forallb. eapply Forall_impl; [|exact HD]. intros c Hc. apply plain_run_char. exact Hc.
+Qed.
+
+Lemma int_elem_roundtrip k m base zero width x :
+  kind_class k <> CFloat -> x < 2 ^ kind_bits k ->
+  mb_ok m base zero = true -> (zero = true \/ width = 0) ->
+  let t := go_int_text (is_signed k) (kind_bits k) x base zero width in
+  read_int_elem k m t = Some x /\ run_ok t.
+Proof.
+  intros Hk Hx Hmb Hzw t. subst t. rewrite int_text_shape by exact Hzw.
+  destruct (kind_bits_range k) as [Hb1 Hb64]. pose proof (pow_bits_split _ Hb1) as Hsplit.
+  set (bits := kind_bits k) in *. set (P := 2 ^ (bits - 1)) in *.
+  assert (H64 : 2 ^ bits <= 2 ^ 64) by (apply N.pow_le_mono_r; lia).
+  set (neg := is_signed k && (P <=? x)).
+  set (mag := if neg then (2 ^ bits - x) mod 2 ^ 64 else x).
+  set (prec := if zero then (if neg then width - 1 else width) else 0).
+  assert (Hprec : zero = false -> prec = 0) by (intro E; subst prec; rewrite E; reflexivity).
+  destruct (padded_digits m base zero prec mag Hmb Hprec) as (HD & HDne & HDval & HDdec).
+  set (D := pad_left ch_0 prec (to_digits base mag)) in *.
+  pose proof (D_plain _ _ _ _ Hmb HD) as Hplain.
+  split; [|apply run_ok_int_text; assumption].
+  unfold read_int_elem, is_signed in *.
+  destruct (kind_class k) eqn:Ek; [| |congruence].
+  - (* unsigned *)
+    cbn [andb] in neg. subst neg. cbn [app]. subst mag.
+    rewrite (unsigned_token_ok m base zero D Hmb HD HDne).
+    apply (unsigned_parse m base zero bits x D); assumption.
+  - (* signed *)
+    cbn [andb] in neg.
+    assert (Hmag : mag < 2 ^ bits /\ (neg = true -> P <= x /\ mag = 2 ^ bits - x) /\ (neg = false -> x < P /\ mag = x)).
+    { subst mag neg. destruct (N.leb_spec P x) as [Hle|Hlt].
+      - rewrite N.mod_small by lia. repeat split; try lia; intro; try discriminate; lia.
+      - repeat split; try lia; intro; try discriminate; lia. }
+    destruct Hmag as (Hmag & Hn1 & Hn0).
+    pose proof (unsigned_token_ok m base zero D Hmb HD HDne) as Htok.
+    pose proof (unsigned_parse m base zero bits mag D Hmb Hmag HD HDne HDval HDdec) as Hparse.
+    destruct neg eqn:Eneg.
+    + cbn [app]. destruct (Hn1 eq_refl) as [Hle Emag].
+      assert (Htok' : int_token_ok true m (ch_minus :: D) = true).
+      { unfold int_token_ok in *. cbn [andb]. rewrite N.eqb_refl.
+        destruct D as [|c r]; [congruence|]. cbn [andb] in Htok. exact Htok. }
+      rewrite Htok'. unfold parse_int_go. rewrite N.eqb_refl. cbn [orb]. fold bits. rewrite Hparse.
+      fold P. replace (P <? mag) with false by (symmetry; apply N.ltb_ge; lia).
+      f_equal. rewrite Emag. replace (2 ^ bits - (2 ^ bits - x)) with x by lia. apply N.mod_small. exact Hx.
+    + cbn [app]. destruct (Hn0 eq_refl) as [Hlt Emag].
+      destruct D as [|c r] eqn:ED; [congruence|].
+      assert (Hc : plain_char c) by (inversion Hplain; assumption).
+      destruct (plain_not_sign c Hc) as [Hm Hp].
+      assert (Htok' : int_token_ok true m (c :: r) = true).
+      { unfold int_token_ok in *. cbn [andb] in *. rewrite Hm. exact Htok. }
+      rewrite Htok'. unfold parse_int_go. rewrite Hm, Hp. cbn [orb]. fold bits. rewrite Hparse.
+      fold P. replace (P <=? mag) with false by (symmetry; apply N.leb_gt; lia).
+      f_equal; exact Emag.
+Qed.
+
+(* ------------------------------------------------------------------ *)
+(** * Array level *)
+
+Lemma kind_eqb_eq a b : kind_eqb a b = true -> a = b.
+Proof. destruct a, b; cbn; congruence. Qed.
+
+Section ArrayLevel.
+  Variables (fmt_g : N -> bytes) (parse_dec : N -> bytes -> option N).
+
+  Lemma array_roundtrip_gen k f m xs (pe : N -> bytes) :
+    f < N.of_nat (length (headers_of k)) -> f < N.of_nat (length (verbs_of k)) ->
+    let h := nth (N.to_nat f) (headers_of k) [] in
+    split_header h = Some (h, []) -> find_header h = Some (k, m) ->
+    (forall x, In x xs -> print_elem fmt_g k f x = Some (pe x) /\
+                          read_elem parse_dec k m (pe x) = Some (canon_elem k x) /\ run_ok (pe x)) ->
+    roundtrip fmt_g parse_dec k f xs = Ok (k, map (canon_elem k) xs).
+  Proof.
+    intros Hf1 Hf2 h Hsplit Hfind Hel.
+    unfold roundtrip, print_elems.
+    replace (N.of_nat (length (headers_of k)) <=? f) with false by (symmetry; apply N.leb_gt; exact Hf1).
+    replace (N.of_nat (length (verbs_of k)) <=? f) with false by (symmetry; apply N.leb_gt; exact Hf2).
+    cbn [orb]. rewrite (map_opt_some _ pe) by (intros x Hx; apply (Hel x Hx)).
+    cbn [outcome_bind]. fold h. unfold read_elems, lex_header.
+    rewrite (split_header_app h Hsplit). rewrite Hfind.
+    assert (Hruns : Forall run_ok (map pe xs)).
+    { apply Forall_forall. intros r Hr. apply in_map_iff in Hr as (x & <- & Hx). apply (Hel x Hx). }
+    rewrite (tokenize_join (map pe xs) Hruns).
+    - rewrite (map_opt_map _ pe (canon_elem k)) by (intros x Hx; apply (Hel x Hx)). reflexivity.
+    - destruct (map pe xs) as [|r l] eqn:E; [reflexivity|].
+      inversion Hruns as [|? ? Hr _]; subst.
+      destruct (join_sp_head r l Hr) as (c & t & Et & Hc). rewrite Et. apply drop_ws_run. exact Hc.
+    - rewrite app_length. cbn [length]. lia.
+  Qed.
+End ArrayLevel.
+
+(* facts about one (kind, setting) pair of the regenerated tables, checked by evaluation *)
+Definition int_pair_ok (k : kind) (f : N) : bool :=
+  (f <? N.of_nat (length (headers_of k))) && (f <? N.of_nat (length (verbs_of k))) &&
+  let h := nth (N.to_nat f) (headers_of k) [] in
+  match split_header h, find_header h, parse_directive (nth (N.to_nat f) (verbs_of k) []) with
+  | Some (h', []), Some (k', m), DVerb zero w c =>
+      bytes_eqb h' h && kind_eqb k' k &&
+      match verb_base c with
+      | Some base => mb_ok m base zero && (zero || (w =? 0))
+      | None => false
+      end
+  | _, _, _ => false
+  end.
+
+Definition int_kinds : list kind := [KU8; KU16; KU32; KU64; KI8; KI16; KI32; KI64].
+Definition int_formats : list N :=
+  [cfg_CTEEncodingFormatDecimal; cfg_CTEEncodingFormatBinary; cfg_CTEEncodingFormatBinaryZeroFilled;
+   cfg_CTEEncodingFormatOctal; cfg_CTEEncodingFormatOctalZeroFilled;
+   cfg_CTEEncodingFormatHexadecimal; cfg_CTEEncodingFormatHexadecimalZeroFilled].
+
+Lemma int_pairs_sweep : forallb (fun k => forallb (int_pair_ok k) int_formats) int_kinds = true.
+Proof. vm_compute. reflexivity. Qed.
+
+Lemma int_kind_in k : kind_class k <> CFloat -> In k int_kinds.
+Proof. destruct k; cbn; intro H; try tauto; congruence. Qed.
+
+Lemma int_format_in k f : kind_class k <> CFloat -> supported_fmt k f = true -> In f int_formats.
+Proof.
+  intros Hk. unfold supported_fmt. destruct (kind_class k); [| |congruence];
+    intro H; repeat (apply orb_true_iff in H as [H|H]); apply N.eqb_eq in H; subst f; cbn; tauto.
+Qed.
+
+Lemma canon_elem_int k x : kind_class k <> CFloat -> canon_elem k x = x.
+Proof. destruct k; cbn; intro H; try reflexivity; congruence. Qed.
+
+Theorem int_array_roundtrip fmt_g parse_dec k f xs :
+  kind_class k <> CFloat -> supported_fmt k f = true -> elems_wf k xs ->
+  roundtrip fmt_g parse_dec k f xs = Ok (k, map (canon_elem k) xs).
+Proof.
+  intros Hk Hf Hwf.
+  pose proof int_pairs_sweep as Hsweep. rewrite forallb_forall in Hsweep.
+  specialize (Hsweep k (int_kind_in k Hk)). rewrite forallb_forall in Hsweep.
+  specialize (Hsweep f (int_format_in k f Hk Hf)). unfold int_pair_ok in Hsweep.
+  apply andb_true_iff in Hsweep as [Hlen Hrest]. apply andb_true_iff in Hlen as [Hl1 Hl2].
+  apply N.ltb_lt in Hl1, Hl2. cbv zeta in Hrest.
+  set (h := nth (N.to_nat f) (headers_of k) []) in *.
+  destruct (split_header h) as [[h' [|? ?]]|] eqn:Esplit; try discriminate.
+  destruct (find_header h) as [[k' m]|] eqn:Efind; try discriminate.
+  destruct (parse_directive (nth (N.to_nat f) (verbs_of k) [])) as [|zero w c|] eqn:Edir; try discriminate.
+  apply andb_true_iff in Hrest as [Hhk Hverb]. apply andb_true_iff in Hhk as [Hh' Hk'].
+  apply bytes_eqb_eq in Hh'. apply kind_eqb_eq in Hk'. subst h' k'.
+  destruct (verb_base c) as [base|] eqn:Ebase; [|discriminate].
+  apply andb_true_iff in Hverb as [Hmb Hzw].
+  assert (Hzw' : zero = true \/ w = 0).
+  { apply orb_true_iff in Hzw as [Hz|Hw]; [left; exact Hz|right; apply N.eqb_eq; exact Hw]. }
+  apply (array_roundtrip_gen fmt_g parse_dec k f m xs
+           (fun x => go_int_text (is_signed k) (kind_bits k) x base zero w)); try assumption.
+  intros x Hx. unfold elems_wf in Hwf. rewrite Forall_forall in Hwf. specialize (Hwf x Hx).
+  destruct (int_elem_roundtrip k m base zero w x Hk Hwf Hmb Hzw') as [Hread Hrun].
+  rewrite (canon_elem_int k x Hk). split; [|split; [|exact Hrun]].
+  - unfold print_elem. destruct (kind_class k) eqn:Ek; [| |congruence];
+      rewrite Edir; unfold go_sprintf_int, is_signed; rewrite Ebase, Ek; reflexivity.
+  - unfold read_elem. destruct (kind_class k) eqn:Ek2; [exact Hread|exact Hread|congruence].
+Qed.
+
+(* ------------------------------------------------------------------ *)
+(** * Correct rounding is the identity on representable values *)
+
+Definition ff_qmin (F : ffmt) : Z := (ff_emin F - (Z.of_N (ff_p F) - 1))%Z.
+
+Definition canonical (F : ffmt) (m0 : N) (q0 : Z) : Prop :=
+  (2 ^ (ff_p F - 1) <= m0 < 2 ^ ff_p F /\ (ff_qmin F <= q0)%Z) \/
+  (0 < m0 < 2 ^ (ff_p F - 1) /\ q0 = ff_qmin F).
+
+Lemma pow2_pos k : 0 < 2 ^ k.
+Proof. apply N.neq_0_lt_0. apply N.pow_nonzero. discriminate. Qed.
+
+Lemma log2_mul_pow2 x k : x <> 0 -> N.log2 (x * 2 ^ k) = N.log2 x + k.
+Proof. intro H. rewrite N.log2_mul_pow2 by lia. lia. Qed.
+
+Lemma canonical_log2 F m0 q0 : 1 <= ff_p F -> canonical F m0 q0 ->
+  m0 <> 0 /\ m0 < 2 ^ ff_p F /\
+  Z.max (Z.of_N (N.log2 m0) + q0 - (Z.of_N (ff_p F) - 1)) (ff_qmin F) = q0.
+Proof.
+  intros Hp [[[H1 H2] Hq] | [[H1 H2] Hq]].
+  - assert (0 < 2 ^ (ff_p F - 1)) by apply pow2_pos.
+    assert (E : N.log2 m0 = ff_p F - 1).
+    { apply N.log2_unique; [lia|]. split; [exact H1|]. replace (N.succ (ff_p F - 1)) with (ff_p F) by lia. exact H2. }
+    repeat split; try lia.
+  - assert (Hlt : N.log2 m0 < ff_p F - 1) by (apply N.log2_lt_pow2; lia).
+    assert (2 ^ (ff_p F - 1) <= 2 ^ ff_p F) by (apply N.pow_le_mono_r; lia).
+    repeat split; try lia.
+Qed.
+
+Lemma round_bin_exact F M E m0 q0 a b :
+  1 <= ff_p F -> canonical F m0 q0 ->
+  M * 2 ^ a = m0 * 2 ^ b -> (E - Z.of_N a = q0 - Z.of_N b)%Z ->
+  round_bin F M E = (m0, q0).
+Proof.
+  intros Hp Hcan Hval Hexp.
+  destruct (canonical_log2 F m0 q0 Hp Hcan) as (Hm0 & Hmlt & Hmax).
+  assert (HM0 : M <> 0).
+  { intro E0. rewrite E0 in Hval. pose proof (pow2_pos b). rewrite N.mul_0_l in Hval. symmetry in Hval.
+    apply N.eq_mul_0 in Hval. lia. }
+  unfold round_bin. fold (ff_qmin F).
+  destruct (N.le_gt_cases b a) as [Hba|Hab].
+  - (* E >= q0: the mantissa is shifted left *)
+    set (d := a - b).
+    assert (Em0 : m0 = M * 2 ^ d).
+    { replace a with (d + b) in Hval by lia. rewrite N.pow_add_r, N.mul_assoc in Hval.
+      apply N.mul_cancel_r in Hval; [lia|]. pose proof (pow2_pos b). lia. }
+    assert (El : N.log2 m0 = N.log2 M + d) by (rewrite Em0; apply log2_mul_pow2; exact HM0).
+    replace (Z.of_N (N.log2 M) + E - (Z.of_N (ff_p F) - 1))%Z
+      with (Z.of_N (N.log2 m0) + q0 - (Z.of_N (ff_p F) - 1))%Z by lia.
+    rewrite Hmax.
+    replace (q0 - E <=? 0)%Z with true by (symmetry; apply Z.leb_le; lia).
+    replace (Z.to_N (- (q0 - E))) with d by lia.
+    rewrite <- Em0.
+    replace (m0 =? 2 ^ ff_p F) with false by (symmetry; apply N.eqb_neq; lia).
+    reflexivity.
+  - (* E < q0: trailing zero bits are shifted out *)
+    set (d := b - a).
+    assert (EM : M = m0 * 2 ^ d).
+    { replace b with (d + a) in Hval by lia. rewrite N.pow_add_r, N.mul_assoc in Hval.
+      apply N.mul_cancel_r in Hval; [lia|]. pose proof (pow2_pos a). lia. }
+    assert (El : N.log2 M = N.log2 m0 + d) by (rewrite EM; apply log2_mul_pow2; exact Hm0).
+    replace (Z.of_N (N.log2 M) + E - (Z.of_N (ff_p F) - 1))%Z
+      with (Z.of_N (N.log2 m0) + q0 - (Z.of_N (ff_p F) - 1))%Z by lia.
+    rewrite Hmax.
+    replace (q0 - E <=? 0)%Z with false by (symmetry; apply Z.leb_gt; lia).
+    replace (Z.to_N (q0 - E)) with d by lia.
+    unfold rne_shift. rewrite EM.
+    assert (Hd : 2 ^ d <> 0) by (pose proof (pow2_pos d); lia).
+    rewrite N.div_mul by exact Hd. rewrite N.mod_mul by exact Hd.
+    replace (0 <? 2 ^ (d - 1)) with true by (symmetry; apply N.ltb_lt; apply pow2_pos).
+    replace (m0 =? 2 ^ ff_p F) with false by (symmetry; apply N.eqb_neq; lia).
+    reflexivity.
+Qed.
+
+(* a finite non-zero magnitude pattern with exponent field ef and mantissa field mf *)
+Lemma round_assemble_exact F ef mf M E a c :
+  1 <= ff_p F -> mf < 2 ^ (ff_p F - 1) -> ef < 2 ^ ff_expbits F - 1 -> (ef <> 0 \/ mf <> 0) ->
+  M * 2 ^ a = (if ef =? 0 then mf else (2 ^ (ff_p F - 1) + mf) * 2 ^ (ef - 1)) * 2 ^ c ->
+  (E - Z.of_N a = ff_qmin F - Z.of_N c)%Z ->
+  (let (m, q) := round_bin F M E in assemble F m q) = Some (ef * 2 ^ (ff_p F - 1) + mf).
+Proof.
+  intros Hp Hmf Hef Hnz Hval Hexp.
+  set (P := 2 ^ (ff_p F - 1)) in *.
+  assert (HP2 : 2 ^ ff_p F = 2 * P) by (subst P; rewrite <- N.pow_succ_r'; f_equal; lia).
+  assert (HPpos : 0 < P) by apply pow2_pos.
+  destruct (N.eqb_spec ef 0) as [E0|N0].
+  - (* subnormal *)
+    assert (Hcan : canonical F mf (ff_qmin F)) by (right; fold P; split; [lia|reflexivity]).
+    rewrite (round_bin_exact F M E mf (ff_qmin F) a c Hp Hcan Hval Hexp).
+    unfold assemble. fold P. replace (mf <? P) with true by (symmetry; apply N.ltb_lt; exact Hmf).
+    f_equal. lia.
+  - (* normal *)
+    assert (Hcan : canonical F (P + mf) (ff_qmin F + Z.of_N (ef - 1))).
+    { left. fold P. split; lia. }
+    rewrite (round_bin_exact F M E (P + mf) (ff_qmin F + Z.of_N (ef - 1)) a (ef - 1 + c) Hp Hcan).
+    + unfold assemble. fold P. replace (P + mf <? P) with false by (symmetry; apply N.ltb_ge; lia).
+      unfold ff_qmin.
+      replace (ff_emin F - (Z.of_N (ff_p F) - 1) + Z.of_N (ef - 1) + (Z.of_N (ff_p F) - 1) - ff_emin F + 1)%Z
+        with (Z.of_N ef) by lia.
+      replace (Z.of_N (2 ^ ff_expbits F - 1) <=? Z.of_N ef)%Z with false by (symmetry; apply Z.leb_gt; lia).
+      f_equal. rewrite N2Z.id. lia.
+    + rewrite Hval. rewrite N.pow_add_r. lia.
+    + lia.
+Qed.
+
+(* ------------------------------------------------------------------ *)
+(** * Scanning hexadecimal float text *)
+
+Definition hex_text (neg : bool) (ip fp : bytes) (eo : option (bool * bytes)) : bytes :=
+  (if neg then [ch_minus] else []) ++ ip ++
+  (match fp with [] => [] | _ => ch_dot :: fp end) ++
+  (match eo with None => [] | Some (eneg, ed) => 112 :: (if eneg : bool then ch_minus else ch_plus) :: ed end).
+
+Definition hexd (c : N) : Prop := is_digit_of 16 c = true.
+
+Lemma hexd_plain c : hexd c -> plain_char c.
+Proof. apply is_digit_of_16_range. Qed.
+
+Lemma hexd_isdu l : Forall hexd l -> forallb (fun c => is_digit_of 16 c || (c =? ch_us)) l = true.
+Proof.
+  intro H. apply Forall_forallb. eapply Forall_impl; [|exact H]. intros c Hc. unfold hexd in Hc. rewrite Hc. reflexivity.
+Qed.
+
+Lemma exp_part_head eo :
+  match (match eo with None => [] | Some (eneg, ed) => 112 :: (if eneg : bool then ch_minus else ch_plus) :: ed end) with
+  | [] => True
+  | c :: _ => (fun c => is_digit_of 16 c || (c =? ch_us)) c = false
+  end.
+Proof. destruct eo as [[eneg ed]|]; [reflexivity|exact I]. Qed.
+
+(* scan_float for un-prefixed hexadecimal text, after the sign *)
+Definition scan_hex_tail (neg : bool) (s2 : bytes) : option fnum :=
+  let isdu := fun c => is_digit_of 16 c || (c =? ch_us) in
+  let (ip, s3) := span isdu s2 in
+  if negb (digits_ok (is_digit_of 16) ip) then None else
+  let '(fp, s4, fok) :=
+    match s3 with
+    | c :: r => if c =? ch_dot then let (fp, s4) := span isdu r in (fp, s4, digits_ok (is_digit_of 16) fp)
+                else ([], s3, true)
+    | [] => ([], s3, true)
+    end in
+  if negb fok then None else
+  match s4 with
+  | [] => Some {| fn_neg := neg; fn_int := ip; fn_frac := fp; fn_exp := None |}
+  | c :: r =>
+      if lower c =? 112 then
+        let '(eneg, r1) := match r with
+                           | c' :: r' => if c' =? ch_minus then (true, r')
+                                         else if c' =? ch_plus then (false, r') else (false, r)
+                           | [] => (false, r)
+                           end in
+        if digits_ok is_dec r1
+        then Some {| fn_neg := neg; fn_int := ip; fn_frac := fp; fn_exp := Some (eneg, r1) |}
+        else None
+      else None
+  end.
+
+Lemma scan_float_hex_neg s : scan_float true false (ch_minus :: s) = scan_hex_tail true s.
+Proof. reflexivity. Qed.
+
+Lemma scan_float_hex_pos c s : (c =? ch_minus) = false -> scan_float true false (c :: s) = scan_hex_tail false (c :: s).
+Proof. intro H. unfold scan_float. rewrite H. reflexivity. Qed.
+
+Lemma scan_hex_text neg ip fp eo :
+  Forall hexd ip -> ip <> [] -> Forall hexd fp ->
+  (forall eneg ed, eo = Some (eneg, ed) -> Forall (fun c => is_dec c = true) ed /\ ed <> []) ->
+  scan_float true false (hex_text neg ip fp eo) =
+  Some {| fn_neg := neg; fn_int := ip; fn_frac := fp; fn_exp := eo |}.
+Proof.
+  intros Hip Hipne Hfp Heo.
+  set (X := match eo with None => [] | Some (eneg, ed) => 112 :: (if eneg : bool then ch_minus else ch_plus) :: ed end).
+  set (R := (match fp with [] => [] | _ => ch_dot :: fp end) ++ X).
+  assert (Htext : hex_text neg ip fp eo = (if neg then [ch_minus] else []) ++ ip ++ R) by reflexivity.
+  rewrite Htext. clear Htext.
+  assert (Hsign : scan_float true false ((if neg then [ch_minus] else []) ++ ip ++ R) = scan_hex_tail neg (ip ++ R)).
+  { destruct neg; cbn [app]; [apply scan_float_hex_neg|].
+    destruct ip as [|c ip']; [congruence|]. cbn [app].
+    assert (Hc : plain_char c) by (apply hexd_plain; inversion Hip; assumption).
+    apply scan_float_hex_pos. apply (plain_not_sign c Hc). }
+  rewrite Hsign. unfold scan_hex_tail.
+  set (isdu := fun c => is_digit_of 16 c || (c =? ch_us)).
+  (* integer part *)
+  assert (HRhead : match R with [] => True | c :: _ => isdu c = false end).
+  { subst R. destruct fp as [|f0 fp']; cbn [app]; [apply exp_part_head|reflexivity]. }
+  rewrite (span_all isdu ip R (hexd_isdu ip Hip) HRhead).
+  rewrite (digits_ok_all (is_digit_of 16) ip Hipne Hip). cbn [negb].
+  (* fraction and exponent *)
+  assert (HX : (match X with
+                | [] => Some {| fn_neg := neg; fn_int := ip; fn_frac := fp; fn_exp := None |}
+                | c :: r =>
+                    if lower c =? 112
+                    then let '(eneg, r1) := match r with
+                                            | c' :: r' => if c' =? ch_minus then (true, r')
+                                                          else if c' =? ch_plus then (false, r') else (false, r)
+                                            | [] => (false, r)
+                                            end in
+                         if digits_ok is_dec r1
+                         then Some {| fn_neg := neg; fn_int := ip; fn_frac := fp; fn_exp := Some (eneg, r1) |}
+                         else None
+                    else None
+                end) = Some {| fn_neg := neg; fn_int := ip; fn_frac := fp; fn_exp := eo |}).
+  { subst X. destruct eo as [[eneg ed]|]; [|reflexivity].
+    destruct (Heo eneg ed eq_refl) as [Hed Hedne].
+    change (lower 112 =? 112) with true. cbv iota.
+    destruct eneg; cbn; rewrite (digits_ok_all is_dec ed Hedne Hed); reflexivity. }
+  subst R. destruct fp as [|f0 fp'].
+  - cbn [app]. destruct X as [|c r] eqn:EX.
+    + exact HX.
+    + assert (Ec : c = 112) by (subst X; destruct eo as [[? ?]|]; congruence).
+      subst c. change (112 =? ch_dot) with false. cbv iota. exact HX.
+  - cbn [app]. rewrite N.eqb_refl.
+    pose proof (span_all isdu (f0 :: fp') X (hexd_isdu _ Hfp) (exp_part_head eo)) as Hsp.
+    cbn [app] in Hsp. rewrite Hsp.
+    rewrite (digits_ok_all (is_digit_of 16) (f0 :: fp') ltac:(discriminate) Hfp). cbn [negb].
+    exact HX.
+Qed.
